@@ -276,63 +276,159 @@ func genIOSites() {
 			continue
 		}
 		var stack []ast.Node
-		sanitizedVar := func(fn ast.Node, name string) bool {
+		// singleDef: the one and only definition of the local variable `name` inside fn.  It must be a declaration
+		// (`:=` or var) in fn itself; any other assignment, ++/--, &name, range variable, a parameter or named result
+		// of that name, or a second declaration (shadowing) makes the answer "unknown".  idx = -1: name is bound to
+		// rhs itself; idx >= 0: name is the idx-th result of the call rhs.
+		singleDef := func(fn ast.Node, name string) (rhs ast.Expr, idx int, ok bool) {
 			if fn == nil {
-				return false
+				return nil, 0, false
 			}
-			assigns, fromSan, addr := 0, 0, false
+			var ft *ast.FuncType
+			switch x := fn.(type) {
+			case *ast.FuncDecl:
+				ft = x.Type
+			case *ast.FuncLit:
+				ft = x.Type
+			}
+			assigns, bad := 0, false
+			if ft != nil {
+				for _, fl := range []*ast.FieldList{ft.Params, ft.Results} {
+					if fl == nil {
+						continue
+					}
+					for _, fld := range fl.List {
+						for _, id := range fld.Names {
+							if id.Name == name {
+								bad = true
+							}
+						}
+					}
+				}
+			}
 			ast.Inspect(fn, func(n ast.Node) bool {
 				switch x := n.(type) {
 				case *ast.AssignStmt:
 					for i, l := range x.Lhs {
-						if id, ok := l.(*ast.Ident); ok && id.Name == name {
+						if id, isId := l.(*ast.Ident); isId && id.Name == name {
 							assigns++
-							if i == 0 && len(x.Rhs) == 1 {
-								if ce, ok := x.Rhs[0].(*ast.CallExpr); ok {
-									if fid, ok := ce.Fun.(*ast.Ident); ok && fid.Name == "sanitizeFileName" {
-										fromSan++
-									}
-								}
+							switch {
+							case x.Tok != token.DEFINE:
+								bad = true
+							case len(x.Rhs) == len(x.Lhs):
+								rhs, idx = x.Rhs[i], -1
+							case len(x.Rhs) == 1:
+								rhs, idx = x.Rhs[0], i
+							default:
+								bad = true
 							}
 						}
 					}
 				case *ast.IncDecStmt:
-					if id, ok := x.X.(*ast.Ident); ok && id.Name == name {
-						assigns++
+					if id, isId := x.X.(*ast.Ident); isId && id.Name == name {
+						bad = true
 					}
 				case *ast.UnaryExpr:
-					if id, ok := x.X.(*ast.Ident); ok && x.Op == token.AND && id.Name == name {
-						addr = true
+					if id, isId := x.X.(*ast.Ident); isId && x.Op == token.AND && id.Name == name {
+						bad = true
 					}
 				case *ast.ValueSpec:
-					for _, id := range x.Names {
+					for i, id := range x.Names {
 						if id.Name == name {
 							assigns++
+							switch {
+							case len(x.Values) == len(x.Names):
+								rhs, idx = x.Values[i], -1
+							case len(x.Values) == 1:
+								rhs, idx = x.Values[0], i
+							default:
+								bad = true
+							}
 						}
 					}
 				case *ast.RangeStmt:
 					for _, e := range []ast.Expr{x.Key, x.Value} {
-						if id, ok := e.(*ast.Ident); ok && id.Name == name {
-							assigns++
+						if id, isId := e.(*ast.Ident); isId && id.Name == name {
+							bad = true
 						}
 					}
 				}
 				return true
 			})
-			return assigns == 1 && fromSan == 1 && !addr
+			if bad || assigns != 1 || rhs == nil {
+				return nil, 0, false
+			}
+			return rhs, idx, true
 		}
-		classify := func(fn ast.Node, e ast.Expr) string {
+		// "<import path>.<Name>" when e is a reference to a watched package, else ""
+		watchedSel := func(e ast.Expr) string {
+			if sel, isSel := e.(*ast.SelectorExpr); isSel {
+				if id, isId := sel.X.(*ast.Ident); isId && id.Obj == nil {
+					if path, w := watched[id.Name]; w {
+						return path + "." + sel.Sel.Name
+					}
+				}
+			}
+			return ""
+		}
+		// Arguments are described by where their value comes from, not by how the local variables are called:
+		// a local variable with a single definition stands for that definition (hoisting / renaming do not matter).
+		var classifyD func(fn ast.Node, e ast.Expr, depth int) string
+		classifyArgs := func(fn ast.Node, args []ast.Expr, depth int) string {
+			var as []string
+			for _, a := range args {
+				as = append(as, classifyD(fn, a, depth))
+			}
+			return strings.Join(as, ",")
+		}
+		classifyD = func(fn ast.Node, e ast.Expr, depth int) string {
 			if k, v, ok := resolveStr(f, e); ok {
 				if k == "" {
 					return "lit:" + v
 				}
 				return "const:" + k + "=" + v
 			}
-			if id, ok := e.(*ast.Ident); ok && sanitizedVar(fn, id.Name) {
-				return "sanitized"
+			if depth > 6 {
+				return "other:" + src(e)
+			}
+			if pe, isP := e.(*ast.ParenExpr); isP {
+				return classifyD(fn, pe.X, depth+1)
+			}
+			if id, isId := e.(*ast.Ident); isId {
+				rhs, idx, ok := singleDef(fn, id.Name)
+				if !ok {
+					return "other:" + src(e)
+				}
+				if idx < 0 {
+					return classifyD(fn, rhs, depth+1)
+				}
+				if ce, isCall := rhs.(*ast.CallExpr); isCall {
+					if fid, isF := ce.Fun.(*ast.Ident); isF && fid.Name == "sanitizeFileName" && idx == 0 {
+						return "sanitized"
+					}
+					if w := watchedSel(ce.Fun); w != "" {
+						return fmt.Sprintf("result%d:%s(%s)", idx, w, classifyArgs(fn, ce.Args, depth+1))
+					}
+				}
+				return "other:" + src(e)
+			}
+			// X.Name() of a local *os.File: described by the call that produced the file
+			if ce, isCall := e.(*ast.CallExpr); isCall && len(ce.Args) == 0 {
+				if sel, isSel := ce.Fun.(*ast.SelectorExpr); isSel && sel.Sel.Name == "Name" {
+					if id, isId := sel.X.(*ast.Ident); isId {
+						if rhs, idx, ok := singleDef(fn, id.Name); ok && idx == 0 {
+							if oc, isC := rhs.(*ast.CallExpr); isC {
+								if w := watchedSel(oc.Fun); w != "" {
+									return fmt.Sprintf("nameof:%s(%s)", w, classifyArgs(fn, oc.Args, depth+1))
+								}
+							}
+						}
+					}
+				}
 			}
 			return "other:" + src(e)
 		}
+		classify := func(fn ast.Node, e ast.Expr) string { return classifyD(fn, e, 0) }
 		ast.Inspect(f, func(n ast.Node) bool {
 			if n == nil {
 				stack = stack[:len(stack)-1]
